@@ -72,6 +72,10 @@ pub struct PayModel {
     pub strict: bool,
     /// false = only counterparty-side updates, approval and preimages (a narrower, deeper search)
     pub holder_letters: bool,
+    /// start from a state in which the keysend is approved and a first part (half the amount) is
+    /// locked into both current commitments of channel 1
+    #[serde(default)]
+    pub locked_prefix: bool,
 }
 
 pub fn pc_content(pc: PC) -> Content {
@@ -188,7 +192,7 @@ impl Model for PayModel {
     }
 
     fn name(&self) -> String {
-        format!("payflow(ops<={},contents={:?},k={}{}{}{})", self.max_ops, self.contents, self.k, if self.strict { ",enforce_balance" } else { "" }, if self.monitors { ",monitors" } else { "" }, if self.holder_letters { "" } else { ",cp-side-only" })
+        format!("payflow(ops<={},contents={:?},k={}{}{}{}{})", self.max_ops, self.contents, self.k, if self.strict { ",enforce_balance" } else { "" }, if self.monitors { ",monitors" } else { "" }, if self.holder_letters { "" } else { ",cp-side-only" }, if self.locked_prefix { ",first-part-locked-in" } else { "" })
     }
 
     fn init(&self) -> PState {
@@ -209,7 +213,17 @@ impl Model for PayModel {
             ghost.chans.insert(d, ChanLedger { cur_holder: Some(PC::E), pending_holder: None, cur_cp: Some(PC::E) });
             f.insert(d, fu);
         }
-        PState { w: Some(w), f, ghost, dead: false, nops: 0 }
+        let mut s = PState { w: Some(w), f, ghost, dead: false, nops: 0 };
+        if self.locked_prefix {
+            let mut sink = vec![];
+            for op in [Op::Approve, Op::SignCp(1, PC::Oh), Op::Validate(1, PC::Oh), Op::Revoke(1), Op::CpRevoke(1)] {
+                self.apply(&mut s, &op, false, &mut sink);
+                assert!(!s.dead, "prefix step {:?} failed", op);
+            }
+            assert!(s.ghost.chans[&1].cur_holder == Some(PC::Oh) && s.ghost.chans[&1].cur_cp == Some(PC::Oh), "prefix did not lock the first part in: {:?}", s.ghost.chans[&1]);
+            s.nops = 0;
+        }
+        s
     }
 
     fn alive(&self, s: &PState) -> bool {
@@ -386,13 +400,15 @@ pub struct PayRun {
 pub fn explore(tier: Tier, monitors: bool, wall_s: f64) -> PayRun {
     let models_cfg: Vec<PayModel> = match (tier, monitors) {
         (Tier::Quick, false) => vec![
-            PayModel { max_ops: 4, contents: vec![PC::E, PC::Oh, PC::O1, PC::O2, PC::I1], k: 2, monitors, strict: false, holder_letters: true },
-            PayModel { max_ops: 6, contents: vec![PC::Oh, PC::O1], k: 3, monitors, strict: false, holder_letters: false },
+            PayModel { max_ops: 4, contents: vec![PC::E, PC::Oh, PC::O1, PC::O2, PC::I1], k: 2, monitors, strict: false, holder_letters: true, locked_prefix: false },
+            PayModel { max_ops: 6, contents: vec![PC::Oh, PC::O1], k: 3, monitors, strict: false, holder_letters: false, locked_prefix: false },
+            PayModel { max_ops: 3, contents: vec![PC::E, PC::Oh, PC::O1, PC::O1x2], k: 3, monitors, strict: false, holder_letters: true, locked_prefix: true },
         ],
-        (Tier::Quick, true) => vec![PayModel { max_ops: 3, contents: vec![PC::E, PC::O1, PC::O2, PC::Ox], k: 2, monitors, strict: false, holder_letters: true }],
+        (Tier::Quick, true) => vec![PayModel { max_ops: 3, contents: vec![PC::E, PC::O1, PC::O2, PC::Ox], k: 2, monitors, strict: false, holder_letters: true, locked_prefix: false }],
         (Tier::Thorough, _) => vec![
-            PayModel { max_ops: 6, contents: vec![PC::E, PC::Oh, PC::O1, PC::Ox, PC::O2, PC::I1, PC::I2O2, PC::O1x2], k: 2, monitors, strict: false, holder_letters: true },
-            PayModel { max_ops: 5, contents: vec![PC::E, PC::Oh, PC::O1, PC::O2, PC::I1], k: 2, monitors, strict: true, holder_letters: true },
+            PayModel { max_ops: 6, contents: vec![PC::E, PC::Oh, PC::O1, PC::Ox, PC::O2, PC::I1, PC::I2O2, PC::O1x2], k: 2, monitors, strict: false, holder_letters: true, locked_prefix: false },
+            PayModel { max_ops: 5, contents: vec![PC::E, PC::Oh, PC::O1, PC::O2, PC::I1], k: 2, monitors, strict: true, holder_letters: true, locked_prefix: false },
+            PayModel { max_ops: 5, contents: vec![PC::E, PC::Oh, PC::O1, PC::Ox, PC::O1x2, PC::I1], k: 3, monitors, strict: false, holder_letters: true, locked_prefix: true },
         ],
     };
     let mut stats = BfsStats { closed: true, ..Default::default() };
